@@ -634,7 +634,8 @@ def c08_jsonld_langtag_empty_subtag(failure):
         return _fam(x[0]) == "jsonld" and x[1] in ("lang", "dir_lang", "ctx_lang") and _EMPTY_SUBTAG.search(x[2]) is not None
     d = _doc(failure)
     if d:
-        return (_fam(d[0]) == "jsonld" and "LANG_TAG" in det
+        # `LanguageTag::new_unchecked` asserts: whatever the wording of the assertion
+        return (_fam(d[0]) == "jsonld" and det.startswith("assertionfailed")
                 and any(_EMPTY_SUBTAG.search(t) for t in re.findall(r'"@language"\s*:\s*"([^"]*)"', d[1])))
     return False
 
